@@ -51,6 +51,7 @@ Stats & stats();
 // files as a process kill at this instant would leave them
 void set_crash_observer(std::function<void()> f);
 bool active();                                  // false in flavours without the link-time seam
+void cleanup_process();                         // remove this process' real scratch directory (flavours without the seam)
 
 void set_time(i64 epoch);                       // SimClock
 i64 time_calls();
